@@ -906,7 +906,10 @@ def _compare(pre, calls, steps, site, abs_snap, abs_events):
     res = real_sequence({"site": site, "steps": steps, "pre": {r: [k] for r, k in zip(ROLES, pre)}, "calls": calls})
     real = res["states"][-1]
     for r in ROLES:
-        if real[r][0] != abs_snap[r][0] and not (real[r][0] in (MIXED, PARTIAL) and abs_snap[r][0] == MIXED):
+        # the ghost image over-approximates an open WITHOUT truncation (contents are opaque: the old content may be longer than the new one, so
+        # a tail of it may survive); the real twin, whose texts have concrete lengths, may then hold a clean file
+        tail_abstraction = abs_snap[r][0] == MIXED and any(x == "<tail of>" for x in abs_snap[r][1]) and real[r][0] != ABSENT
+        if real[r][0] != abs_snap[r][0] and not (real[r][0] in (MIXED, PARTIAL) and abs_snap[r][0] == MIXED) and not tail_abstraction:
             raise RuntimeError("cross-check: ghost image and real directory disagree for pre=%s calls=%s: ghost %s real %s"
                                % (_fmt_state(pre), calls, _snap_json(abs_snap), real))
     if abs_events is not None and [list(e) for e in abs_events] != res["events"][-1]:
